@@ -186,14 +186,18 @@ def _val_float(v):
 
 class SX:
     """Extended real.  Exactly one of: nan, pinf, ninf, finite(value v)."""
-    __slots__ = ('v', 'nan', 'pinf', 'ninf', 'sg')
+    __slots__ = ('v', 'nan', 'pinf', 'ninf', 'sg', 'num', 'den')
 
-    def __init__(self, v, nan=False, pinf=False, ninf=False, sg=None):
+    def __init__(self, v, nan=False, pinf=False, ninf=False, sg=None, num=None, den=None):
         self.v = v
         self.nan = nan
         self.pinf = pinf
         self.ninf = ninf
         self.sg = sg      # None | '+' (v>0 when finite) | '0+' (v>=0 when finite)
+        # optional structure  v == num/den  with den a positive finite term: lets (x/m)*m and
+        # sums over a common denominator cancel syntactically (the log-sum-exp shift)
+        self.num = num
+        self.den = den
 
     # -- construction
     @staticmethod
@@ -297,14 +301,30 @@ def sx_mul(a, b):
         ap, an, bp, bn = a.pos(), a.neg(), b.pos(), b.neg()
         pinf = And(Not(nan), anyinf, Or(And(ap, bp), And(an, bn)))
         ninf = And(Not(nan), anyinf, Or(And(ap, bn), And(an, bp)))
-    return SX(_rmul(a.v, b.v), nan, pinf, ninf, _sg_mul(a.sg, b.sg))
+    v = None
+    if a.den is not None and _definitely_finite(b) and b.v.eq(a.den):
+        v = a.num
+    elif b.den is not None and _definitely_finite(a) and a.v.eq(b.den):
+        v = b.num
+    return SX(_rmul(a.v, b.v) if v is None else v, nan, pinf, ninf, _sg_mul(a.sg, b.sg))
+
+
+def _definitely_finite(a):
+    return a.nan is False and a.pinf is False and a.ninf is False
 
 
 def sx_add(a, b):
     nan = Or(a.nan, b.nan, And(a.pinf, b.ninf), And(a.ninf, b.pinf))
     pinf = And(Not(nan), Or(a.pinf, b.pinf))
     ninf = And(Not(nan), Or(a.ninf, b.ninf))
-    return SX(_radd(a.v, b.v), nan, pinf, ninf, _sg_add(a.sg, b.sg))
+    num = den = None
+    if a.den is not None and b.den is not None and a.den.eq(b.den):
+        num, den = _radd(a.num, b.num), a.den
+    elif a.den is not None and _definitely_finite(b) and _is0(b.v):
+        num, den = a.num, a.den
+    elif b.den is not None and _definitely_finite(a) and _is0(a.v):
+        num, den = b.num, b.den
+    return SX(_radd(a.v, b.v), nan, pinf, ninf, _sg_add(a.sg, b.sg), num, den)
 
 
 def sx_neg(a):
@@ -329,7 +349,10 @@ def sx_div(a, b):
     else:
         q = a.v / b.v
     v = IteR(Or(ib, zb), _R0, q)
-    return SX(v, nan, pinf, ninf, _sg_mul(a.sg, b.sg))
+    num = den = None
+    if _definitely_finite(a) and _definitely_finite(b) and b.sg == '+' and a.den is None and not z3.is_rational_value(b.v):
+        num, den = a.v, b.v
+    return SX(v, nan, pinf, ninf, _sg_mul(a.sg, b.sg), num, den)
 
 
 def sx_lt(a, b):
